@@ -247,6 +247,7 @@ class WorldScenario:
                 w.local.settle_timers()
         elif kind == "pool_restart":
             if w.local is not None:
+                w.advance(2.0)  # stopping and starting the workers takes time
                 w.local.start_pool()
                 from .sock import SocketProxy
 
